@@ -14,6 +14,8 @@
 
 #include <arpa/inet.h>
 #include <cerrno>
+#include <sys/mman.h>
+#include <unistd.h>
 #include <cinttypes>
 #include <cstdint>
 #include <cstdio>
@@ -21,6 +23,7 @@
 #include <cstring>
 #include <netinet/in.h>
 #include <string>
+#include <sys/mman.h>
 #include <sys/socket.h>
 #include <sys/un.h>
 #include <vector>
@@ -456,6 +459,30 @@ inline Res exec_sockres(const Args &a) {
 inline Res exec_sockde(const Args &a) {
   Res r;
   const std::string &in = a.s.empty() ? std::string() : a.s[0];
+  // A serialised address of more than 4 GiB whose length field agrees with the buffer length modulo 2^32 only (1 case in 32).  The
+  // buffer is an anonymous mapping of which one page is ever touched; a decoder that compares lengths in 32 bits accepts it and copies.
+  if ((pbt::fnv(in) & 31) == 7) {
+    uint32_t k = 16 + (uint32_t)(pbt::fnv(in) >> 8) % 100;
+    size_t total = ((size_t)1 << 32) + 12 + k;
+    uint8_t *big = (uint8_t *)mmap(nullptr, total, PROT_READ | PROT_WRITE, MAP_PRIVATE | MAP_ANONYMOUS | MAP_NORESERVE, -1, 0);
+    if (big != MAP_FAILED) {
+      int32_t fam = AF_INET, st = SOCK_STREAM;
+      memcpy(big, &fam, 4);
+      memcpy(big + 4, &st, 4);
+      memcpy(big + 8, &k, 4);
+      int fl = 0;
+      char mg[SHIM_MSG];
+      int rcg = shim_sock_deserialize(big, total, &fl, mg);
+      munmap(big, total);
+      if (rcg != 0 || (fl & 1)) {
+        char mm[300];
+        snprintf(mm, sizeof mm, "sock_addr_deserialize of a %zu-byte buffer whose length field says %u %s", total, k, rcg ? mg : "was accepted");
+        r.fail("deser-accept-invalid", mm);
+        return r;
+      }
+      r.c("buffer-above-4GiB");
+    }
+  }
   uint8_t *ib = block(in);
   int flags = 0;
   char msg[SHIM_MSG];
@@ -556,6 +583,35 @@ inline Res exec_readpass(const Args &a) {
     }
     r.c("unreadable-file");
   }
+  // A passphrase source that is not a regular file (a pipe: size unknown in advance, nothing to seek in).  1 case in 8; the data
+  // fits the pipe, the write end is closed, and the library opens the read end by name.
+  if ((pbt::fnv(in) & 7) == 3 && in.size() <= 60000) {
+    int pf[2];
+    if (pipe(pf) == 0) {
+      size_t off = 0;
+      while (off < in.size()) {
+        ssize_t w = write(pf[1], in.data() + off, in.size() - off);
+        if (w <= 0) break;
+        off += (size_t)w;
+      }
+      close(pf[1]);
+      char pth[64];
+      snprintf(pth, sizeof pth, "/proc/self/fd/%d", pf[0]);
+      char *pw1 = nullptr;
+      int rc1 = shim_readpass_file(pth, &pw1);
+      close(pf[0]);
+      char m1[300];
+      if (rc1 == 0 && pw1) {
+        std::string p1 = pw1;
+        snprintf(m1, sizeof m1, "readpass_file on a pipe holding %zu bytes (%s) returned %zu bytes", in.size(), hexs(in, 32).c_str(), p1.size());
+        if (p1.size() >= 2048 || in.size() >= 2048) r.fail("readpass-length", m1);
+        else if (in.compare(0, p1.size(), p1) != 0) r.fail("readpass-not-prefix", m1);
+      } else if (rc1 != -1 && rc1 != 0) r.fail("readpass-rc", "readpass_file on a pipe returned neither 0 nor -1");
+      free(pw1);
+      r.c("passphrase-from-a-pipe");
+      if (!r.ok) return r;
+    }
+  }
   uint8_t *ib = block(in);
   const char *path = shim_file_put(ib, in.size());
   free(ib);
@@ -599,7 +655,27 @@ inline Res exec_getopt(const Args &a) {
   if (total > 120) oe = 0;  // getopt's warnings quote argv[0] and the option: keep the logs small
   char **argv = (char **)malloc((argc + 1) * sizeof(char *));
   if (!argv) abort();
-  for (size_t i = 0; i < argc; i++) argv[i] = cblock(a.s[i]);
+  // one vector in three lives in read-only memory (string literals, a const table): the parser gets `char * const argv[]` and has no
+  // business writing to the strings, not even temporarily
+  bool ro = argc > 0 && (pbt::fnv(a.s[0]) % 3) == 0;
+  char *ropage = nullptr;
+  size_t rolen = 0;
+  if (ro) {
+    for (size_t i = 0; i < argc; i++) rolen += cut_nul(a.s[i]).size() + 1;
+    rolen = (rolen + 4095) / 4096 * 4096;
+    ropage = (char *)mmap(nullptr, rolen, PROT_READ | PROT_WRITE, MAP_PRIVATE | MAP_ANONYMOUS, -1, 0);
+    if (ropage == MAP_FAILED) abort();
+    size_t off = 0;
+    for (size_t i = 0; i < argc; i++) {
+      std::string t = cut_nul(a.s[i]);
+      memcpy(ropage + off, t.c_str(), t.size() + 1);
+      argv[i] = ropage + off;
+      off += t.size() + 1;
+    }
+    mprotect(ropage, rolen, PROT_READ);
+    r.c("argv-in-read-only-memory");
+  } else
+    for (size_t i = 0; i < argc; i++) argv[i] = cblock(a.s[i]);
   argv[argc] = nullptr;
   int nopts = 0, nargs = 0, ndef = 0, oi = 0;
   char msg[SHIM_MSG];
@@ -617,7 +693,10 @@ inline Res exec_getopt(const Args &a) {
   r.c(nopts ? (nargs ? "options+args" : "options") : "no-options");
   if (ndef) r.c("default-or-missing");
   r.progressed = nopts > 0;
-  for (size_t i = 0; i < argc; i++) free(argv[i]);
+  if (ro)
+    munmap(ropage, rolen);
+  else
+    for (size_t i = 0; i < argc; i++) free(argv[i]);
   free(argv);
   return r;
 }
